@@ -19,6 +19,10 @@ CHECKS = {
          "Round trip of five catalogue metadata x wrappers x loaders x 0-2 signatures and of every ordered pair of dumps to one path; every single-point structural corruption (each member at every nesting level dropped / renamed / nulled / retyped to every other JSON type, unknown member in every object, entry and element retypes, type-marker and payload-type variants, payload not base64 / JSON / object, truncation after every structural character) of the dumped full link and layout through both loaders, judged by what the statement demands for the position (refuse / accept / don't-care); ValidateMetablock on the valid catalogue and on 100+ single violations of format rules at each position they can occur.",
          "Trusted: the schema in props/c12/schema.go. Outside: >= 2 simultaneous corruptions, duplicate members, letter-case variants.",
          "DESIGN.md §3 C12"),
+ "C13": ("bounded-exhaustive enumeration of all directory trees up to a node bound (materialised on disk) x recording options, differential against a reference walk over the described tree; run/record histories; match-products product",
+         "Every tree with <= 4 (thorough 5) nodes - files with 4 contents, directories, symlinks to every other node / .. / itself / a missing name / a file outside: file links, directory links, chains, true cycles, dangling links by construction - is written to disk and recorded under follow x normalise; all trees <= 3 nodes additionally under deviating algorithm lists, exclude patterns, strip prefixes and path lists; InTotoRun / RecordStart+Stop x 5 file changes; the 81 match-products combinations. ref.Walk decides the exact artifact map (names, digests per algorithm) or that an error is due (dangling, unknown algorithm, collision, true cycle).",
+         "Trusted: ref.Walk, crypto/sha*. Outside: bigger trees, other contents; exclude patterns with symlinks or naming a directory (don't-care).",
+         "DESIGN.md §3 C13"),
  "C17": ("bounded-exhaustive enumeration of all patterns x all names over metacharacter alphabets, differential against a reference matcher",
          "Every pattern up to length 5 (quick) / 6 (thorough) over an alphabet holding every metacharacter, against every name up to length 4 / 5, "
          "plus a metacharacter-name and a UTF-8 alphabet, is pushed through Set.Filter and compared with an independent backtracking matcher written from the documented grammar; "
